@@ -9,10 +9,20 @@
 //   V <k> <tolnum> <flags> <env|-> x y x y ...    env = xmin,ymin,xmax,ymax (grid units); flags: 1 edges only, 2 preserve order
 //        -> cells: "P h h h h ... ; P ... "  (each ordinate / 2^k as the 16 hex digits of the binary64), or "L h h h h ; ..." for edges
 //   P <16hex> x8                                  q p r t as bit patterns -> "robust nonrobust normalized" (Location codes 0 I, 1 B, 2 E)
+//   d <k> <tolnum> <gtype> <seq> x y ...        C++ classes: ONE DelaunayTriangulationBuilder, the requests of <seq> in order
+//        (T = getTriangles, E = getEdges, e.g. ET, TE, TT, EE, ETE) -> the answers in the D formats joined by " | "
+//   v <k> <tolnum> <flags&2> <env|-> <gtype> <seq> x y ...   ONE VoronoiDiagramBuilder, requests P = getDiagram, L = getDiagramEdges
+//        -> the answers in the V formats joined by " | "
 //   errors: "ERR <message>" (the C API returned NULL), "NONGRID" (an output ordinate that is not an input-grid integer)
 #include <geos_c.h>
 #include <geos/triangulate/quadedge/TrianglePredicate.h>
 #include <geos/geom/Coordinate.h>
+#include <geos/geom/Envelope.h>
+#include <geos/geom/Geometry.h>
+#include <geos/geom/GeometryCollection.h>
+#include <geos/geom/MultiLineString.h>
+#include <geos/triangulate/DelaunayTriangulationBuilder.h>
+#include <geos/triangulate/VoronoiDiagramBuilder.h>
 #include <cmath>
 #include <cstdarg>
 #include <cstdint>
@@ -161,6 +171,54 @@ int main(int argc, char** argv) {
                 GEOSGeom_destroy_r(h, r);
             }
             if (g) GEOSGeom_destroy_r(h, g); if (ge) GEOSGeom_destroy_r(h, ge);
+        } else if (tag == "d") {
+            int k; double tolnum; std::string gtype, sq; ls >> k >> tolnum >> gtype >> sq;
+            std::vector<double> xy; double d; while (ls >> d) xy.push_back(d);
+            GEOSGeometry* g = sites_geom(gtype, xy, k);
+            const geos::geom::Geometry* gg = reinterpret_cast<const geos::geom::Geometry*>(g);
+            try {
+                geos::triangulate::DelaunayTriangulationBuilder builder;
+                builder.setTolerance(std::ldexp(tolnum, k));
+                builder.setSites(*gg);
+                for (size_t i = 0; i < sq.size(); i++) {
+                    if (i) out += " | ";
+                    try {
+                        if (sq[i] == 'T') { auto r = builder.getTriangles(*gg->getFactory()); out += tris_out(reinterpret_cast<const GEOSGeometry*>(static_cast<const geos::geom::Geometry*>(r.get())), k); }
+                        else { auto r = builder.getEdges(*gg->getFactory()); out += edges_out(reinterpret_cast<const GEOSGeometry*>(static_cast<const geos::geom::Geometry*>(r.get())), k); }
+                    } catch (std::exception& e) { std::string m = e.what(); for (auto& c : m) if (c == '|' || c == ';' || c == '\n') c = ' '; out += "ERR " + m; }
+                }
+            } catch (std::exception& e) { out = std::string("ERR ") + e.what(); }
+            if (g) GEOSGeom_destroy_r(h, g);
+        } else if (tag == "v") {
+            int k, flags; double tolnum; std::string env, gtype, sq; ls >> k >> tolnum >> flags >> env >> gtype >> sq;
+            std::vector<double> xy; double d; while (ls >> d) xy.push_back(d);
+            GEOSGeometry* g = sites_geom(gtype, xy, k);
+            const geos::geom::Geometry* gg = reinterpret_cast<const geos::geom::Geometry*>(g);
+            geos::geom::Envelope cenv; bool has_env = env != "-";
+            if (has_env) { for (auto& c : env) if (c == ',') c = ' '; std::vector<double> e = nums(env);
+                cenv = geos::geom::Envelope(std::ldexp(e[0], k), std::ldexp(e[2], k), std::ldexp(e[1], k), std::ldexp(e[3], k)); }
+            try {
+                geos::triangulate::VoronoiDiagramBuilder builder;
+                builder.setSites(*gg); builder.setTolerance(std::ldexp(tolnum, k)); builder.setOrdered((flags & 2) != 0);
+                if (has_env) builder.setClipEnvelope(&cenv);
+                for (size_t i = 0; i < sq.size(); i++) {
+                    if (i) out += " | ";
+                    try {
+                        std::unique_ptr<geos::geom::Geometry> r;
+                        bool lines = sq[i] == 'L';
+                        if (lines) r = builder.getDiagramEdges(*gg->getFactory()); else r = builder.getDiagram(*gg->getFactory());
+                        out += lines ? "L" : "P";
+                        for (std::size_t j = 0; j < r->getNumGeometries(); j++) {
+                            const GEOSGeometry* c = reinterpret_cast<const GEOSGeometry*>(r->getGeometryN(j));
+                            int ty = GEOSGeomTypeId_r(h, c);
+                            if (lines && ty == GEOS_LINESTRING) out += " " + ring_pts(c, k, 0, true) + " ;";
+                            else if (!lines && ty == GEOS_POLYGON && GEOSGetNumInteriorRings_r(h, c) == 0) out += " " + ring_pts(GEOSGetExteriorRing_r(h, c), k, 0, true) + " ;";
+                            else out += " BADTYPE" + std::to_string(ty) + " ;";
+                        }
+                    } catch (std::exception& e) { std::string m = e.what(); for (auto& c : m) if (c == '|' || c == ';' || c == '\n') c = ' '; out += "ERR " + m; }
+                }
+            } catch (std::exception& e) { out = std::string("ERR ") + e.what(); }
+            if (g) GEOSGeom_destroy_r(h, g);
         } else out = "?";
         if (nongrid) out = "NONGRID " + out;
         puts(out.c_str()); fflush(stdout);
